@@ -7,7 +7,7 @@ from . import c01
 PROP = "C11"
 LEVEL = "exploration"
 DESIGN_REF = "DESIGN.md 7 (C11)"
-BUDGETS = {"quick": 45.0, "thorough": 900.0}
+BUDGETS = {"quick": 35.0, "thorough": 900.0}
 CHUNK = 4
 MINIMISE_BUDGET = 150
 ORACLES = ("C11.",)
